@@ -17,7 +17,9 @@ TECHNIQUE = "Lean 4 state-machine refinement proof + exact differential run over
 RULE = ("random histories (<= 20 ops) of receive / all_waveforms / waveforms / is_hit / full_waveform / "
         "is_hit_during / make_noise / clear(reset) on Antenna (noiseless and noisy with a patched deterministic "
         "noise class), DipoleAntenna (threshold trigger) and AntennaSystem (lead-in 0, 2.5 dt, 10 dt; halving or "
-        "pass-through front end; inner-antenna queries interleaved); signal windows overlapping, disjoint (far "
+        "pass-through front end; inner-antenna queries interleaved); plus real-thermal-noise histories (seeded numpy RNG, "
+        "Antenna / DipoleAntenna / AntennaSystem, make_noise / full_waveform / receive / all_waveforms / clear on 2-4 "
+        "windows lying up to 1000 window lengths apart and revisited, tolerance 1e-9); signal windows overlapping, disjoint (far "
         "away, exercising the skip test), nested, half-sample shifted and with different sample spacings; a "
         "history is non-trivial when it has a query after a receive; distinct = distinct (configuration, history)")
 LEVEL_TEXT = ("theorems over all histories of the Lean state machine (unbounded induction); the state machine is "
@@ -29,7 +31,9 @@ LEVEL_NOTE = ("assumed: numpy.interp is piecewise-linear interpolation with left
               "C09_system_full_is_sum assumes a front end that keeps the grid and is additive. No _partial theorem.")
 CHECKER_MODULES = ["PyrexVerif.Proofs.AntennaBook", "PyrexVerif.Proofs.AntennaInterp", "PyrexVerif.D.AntennaSM"]
 EXTRACTORS = []
-ASSUMPTIONS = ["np.interp(x, xp, fp, left=0, right=0) = piecewise-linear interpolation, zero outside [xp[0], xp[-1]]",
+ASSUMPTIONS = ["real-noise run: the noise function of an epoch is learnt from the first observation of every absolute "
+               "time; that ThermalNoise is a function of absolute time at all is property C17",
+               "np.interp(x, xp, fp, left=0, right=0) = piecewise-linear interpolation, zero outside [xp[0], xp[-1]]",
                "Antenna.apply_response replaced by a copy (C08 covers the response); receive itself is the real code",
                "pyrex.antenna.ThermalNoise replaced by a deterministic function of (realisation, absolute time)",
                "AntennaSystem histories only touch the inner antenna through queries (never receive/clear on it)"]
@@ -340,6 +344,23 @@ def correspondence(run):
                             % (rq[:500], k, (mi[k] if k < len(mi) else "")[:300], (ii[k] if k < len(ii) else "")[:300]))
             if len(run.broken) > 5:
                 break
+    # tolerance run with pyrex's real thermal noise: the model's "noise = function of absolute time per epoch"
+    for _ in range(run.scale(60, 600)):
+        case = gen_real_noise_case(run.rng)
+        far = max(abs(w[0]) for w in case["windows"]) / float(case["windows"][0][1])
+        run.count("realnoise_%s" % case["cfg"]["kind"])
+        run.count("realnoise_far_%s" % ("ge100" if far >= 100 else "ge8" if far >= 8 else "near"))
+        run.case(("real-noise", str(case)), nontrivial=real_noise_nontrivial(case))
+        why = real_noise_oracle(case)
+        if why is None:
+            run.traces += 1
+        else:
+            ok = False
+            run.note_broken("correspondence: real thermal noise, %s, windows (start, n in samples of 2^-30 s) %s, "
+                            "ops %s: model: noise is a function of absolute time until reset; implementation: %s"
+                            % (case["cfg"]["kind"], case["windows"], [o[:2] for o in case["ops"]], why))
+            if len(run.broken) > 5:
+                break
     # the lead-in grid on its own
     reqs, exp = [], []
     np = _mods()[0]
@@ -359,6 +380,136 @@ def correspondence(run):
             ok = False
             run.note_broken("correspondence: request `%s` model `%s` implementation `%s`" % (rq, rp[:300], ex[:300]))
     return ok
+
+
+# --------------------------------------------------------------------------------------------
+# real thermal noise (pyrex's own ThermalNoise, seeded numpy RNG): tolerance run + search oracle.
+# The model says: within one noise epoch the noise is a FUNCTION OF ABSOLUTE TIME (C09_noise_absolute,
+# C09_full_is_noise_plus_sum), whatever window is asked for and in whatever order, and only
+# clear(reset_noise=True) starts a new epoch (C09_reset_new_epoch).  The function itself is random, so it is
+# learnt from the first observation of every absolute time (a ledger) and every later observation -
+# make_noise(W), full_waveform(W) minus the signals, every cached all_waveforms entry minus the signals -
+# must reproduce it.  Windows lie up to 1000 window lengths apart and are revisited.
+RDT = 2.0 ** -30          # ~0.93 ns; sample times k*RDT are exact floats, so revisits hit identical times
+
+
+def gen_real_noise_case(rng):
+    kind = rng.choice(["ant", "dip", "sys", "sys"])
+    cfg = {"kind": kind, "noisy": 1, "dt": RDT, "thr": None, "lead": 0.0, "fe": "I", "inner": "ant"}
+    if kind == "dip":
+        cfg["thr"] = 3e-5
+    if kind == "sys":
+        cfg["inner"] = rng.choice(["ant", "dip"])
+        if cfg["inner"] == "dip":
+            cfg["thr"] = 3e-5
+        cfg["lead"] = RDT * rng.choice([0, 2.5, 10])
+        cfg["fe"] = rng.choice(["H", "H", "I"])
+    L = rng.randint(24, 100)
+    offs = [0] + [rng.choice([-1, 1, 1]) * rng.choice([0.5, 1.5, 3, 8, 12, 30, 50, 100, 400, 1000])
+                  for _ in range(rng.randint(1, 3))]
+    windows = [[int(o * L) + (rng.randint(0, 5) if o else 0), rng.randint(max(8, L // 2), L)] for o in offs]
+    windows[0][1] = L
+    ops = []
+    amp = 2e-5 if "dip" in (kind, cfg["inner"]) else 2.0
+    first = True
+    for _ in range(rng.randint(5, 14)):
+        w = 0 if first else rng.randrange(len(windows))
+        first = False
+        r = rng.random()
+        if r < 0.3:
+            ops.append(["N", w])
+        elif r < 0.55:
+            ops.append(["F", w])
+        elif r < 0.8:
+            ops.append(["R", w, [rng.randint(-8, 8) / 4.0 * amp for _ in range(windows[w][1])]])
+        elif r < 0.93:
+            ops.append(["A"])
+        else:
+            ops.append(["C", int(rng.random() < 0.4)])
+    return {"cfg": cfg, "windows": windows, "ops": ops, "seed": rng.randrange(2 ** 31)}
+
+
+def real_noise_oracle(case):
+    """-> None, or a description of the first observation that contradicts 'noise = function of absolute
+    time until reset'"""
+    np, pyrex, Signal, FunctionSignal = _mods()
+    cfg = case["cfg"]
+    np.random.seed(case["seed"])
+    obj = build(cfg)
+    is_sys = cfg["kind"] == "sys"
+    scale = 0.5 if (is_sys and cfg["fe"] == "H") else 1.0
+    grids = [RDT * (w[0] + np.arange(w[1])) for w in case["windows"]]
+    ledger, sigs = {}, []
+    epoch_resets = 0
+
+    def observe(times, values, what, i, with_signals=True):
+        vals = np.array(values, dtype=float)
+        for ts, vs in (sigs if with_signals else []):       # make_noise is the noise alone
+            vals = vals - scale * np.interp(times, ts, vs, left=0, right=0)
+        big = max([1e-30, float(np.max(np.abs(values)))] + [float(np.max(np.abs(vs))) for _, vs in sigs])
+        for t, v in zip(times, vals):
+            old = ledger.setdefault(float(t), float(v))
+            if abs(old - v) > 1e-9 * big:
+                return ("op %d (%s): noise at absolute time %.6e s is %.6e, it was %.6e earlier in the same noise "
+                        "epoch (no reset in between)" % (i, what, t, v, old))
+        return None
+    for i, op in enumerate(case["ops"]):
+        k = op[0]
+        try:
+            if k == "N":
+                why = observe(grids[op[1]], obj.make_noise(grids[op[1]]).values, "make_noise", i, False)
+            elif k == "F":
+                why = observe(grids[op[1]], obj.full_waveform(grids[op[1]]).values, "full_waveform", i)
+            elif k == "R":
+                ts, vs = grids[op[1]], np.array(op[2], dtype=float)
+                obj.receive(Signal(ts, vs, Signal.Type.voltage))
+                sigs.append((ts, vs))
+                why = None
+            elif k == "A":
+                ws = obj.all_waveforms
+                why = None
+                if len(ws) != len(sigs):
+                    why = "op %d: %d waveforms for %d signals" % (i, len(ws), len(sigs))
+                for w, (ts, _) in zip(ws, sigs):
+                    why = why or observe(ts, w.values, "all_waveforms", i)
+            else:
+                obj.clear(reset_noise=bool(op[1]))
+                sigs = []
+                if op[1]:
+                    ledger = {}
+                    epoch_resets += 1
+                why = None
+        except Exception as e:
+            why = "op %d (%s): exception %s: %s" % (i, k, type(e).__name__, str(e)[:100])
+        if why:
+            return why
+    return None
+
+
+def real_noise_nontrivial(case):
+    """some window is revisited after a visit to another one"""
+    seen, last = set(), None
+    for op in case["ops"]:
+        if op[0] in "NFR":
+            if op[1] in seen and last != op[1]:
+                return True
+            seen.add(op[1])
+            last = op[1]
+    return False
+
+
+def shrink_real_noise(case):
+    ops = list(case["ops"])
+    changed = True
+    while changed and len(ops) > 1:
+        changed = False
+        for i in range(len(ops)):
+            cand = dict(case, ops=ops[:i] + ops[i + 1:])
+            if cand["ops"] and real_noise_oracle(cand):
+                ops = cand["ops"]
+                changed = True
+                break
+    return dict(case, ops=ops)
 
 
 # --------------------------------------------------------------------------------------------
@@ -476,6 +627,16 @@ def search(run, deep):
         if why:
             run.fail_input("leadin", {"dt": dt, "lead": lead, "grid": g}, observed=why, what=why)
             break
+    for _ in range(1500 if deep else run.scale(150, 1500)):
+        case = gen_real_noise_case(run.rng)
+        run.case(("real-noise-oracle", str(case)), nontrivial=real_noise_nontrivial(case))
+        why = real_noise_oracle(case)
+        if why:
+            small = shrink_real_noise(case)
+            run.fail_input("real-noise", small, observed=real_noise_oracle(small), what=why[:200],
+                           expected="the same noise value at the same absolute time until clear(reset_noise=True)")
+            if len(run.violations) >= 3:
+                return
     n = 3000 if deep else run.scale(400, 3000)
     for _ in range(n):
         cfg = gen_cfg(run.rng)
@@ -523,6 +684,11 @@ def shrink(cfg, ops):
 
 def replay(run, data):
     inp = data["input"]
+    if data["kind"] == "real-noise":
+        why = real_noise_oracle(inp)
+        if why:
+            run.fail_input("real-noise", inp, observed=why, what=why[:200])
+        return
     if data["kind"] == "leadin":
         why = leadin_oracle(inp["dt"], inp["lead"], inp["grid"])
         if why:
